@@ -527,7 +527,34 @@ func c07RegressionsRest(c *Case) {
 				fld(hotline.FieldData, obf([]byte(old))), fld(hotline.FieldUserLogin, obf([]byte(nl))), fld(hotline.FieldUserName, []byte("n")),
 				fld(hotline.FieldUserPassword, []byte{0}), fld(hotline.FieldUserAccess, acc[:]))))
 		}
+		newUser := func(l string) hotline.Transaction {
+			return mkTran(hotline.TranNewUser, 2, fld(hotline.FieldUserLogin, obf([]byte(l))), fld(hotline.FieldUserName, []byte("n")),
+				fld(hotline.FieldUserPassword, []byte("pw")), fld(hotline.FieldUserAccess, acc[:]))
+		}
+		upCreate := func(l string) hotline.Transaction {
+			return mkTran(hotline.TranUpdateUser, 2, fld(hotline.FieldData, subFields(
+				fld(hotline.FieldUserLogin, obf([]byte(l))), fld(hotline.FieldUserName, []byte("n")),
+				fld(hotline.FieldUserPassword, []byte("pw")), fld(hotline.FieldUserAccess, acc[:]))))
+		}
+		delUser := func(l string) hotline.Transaction {
+			return mkTran(hotline.TranDeleteUser, 3, fld(hotline.FieldUserLogin, obf([]byte(l))))
+		}
+		upDelete := func(l string) hotline.Transaction {
+			return mkTran(hotline.TranUpdateUser, 3, fld(hotline.FieldData, subFields(fld(hotline.FieldData, obf([]byte(l))))))
+		}
+		// canaries exactly where these logins would land if joined to Users/ without being anchored below "/"
+		for _, p := range []string{filepath.Join(ts.Cfg, "config.yaml"), filepath.Join(ts.Cfg, "b.yaml"), filepath.Join(ts.Cfg, "c.yaml"),
+			filepath.Join(ts.Cfg, "created.yaml"), filepath.Join(ts.Cfg, "escaped.yaml"), filepath.Join(ts.Dir, "escaped2.yaml"), filepath.Join(ts.Cfg, "..yaml")} {
+			os.WriteFile(p, []byte(box.marker+" unanchored account path"), 0644)
+		}
+		before = box.outside(ts.Users)
 		for i, t := range []hotline.Transaction{
+			// create, then delete / rename THE SAME login (a Delete that trusts "the account exists" and joins the raw login)
+			newUser("../config"), delUser("../config"),
+			upCreate("../../x"), upDelete("../../x"),
+			newUser("a/../../b"), ren("a/../../b", "../c"), delUser("../c"),
+			upCreate(".."), delUser(".."),
+			newUser("../victim"), upDelete("../victim"),
 			ren("bob", "../escaped"),
 			ren("../escaped", "../../escaped2"),
 			mkTran(hotline.TranNewUser, 2, fld(hotline.FieldUserLogin, obf([]byte("../created"))), fld(hotline.FieldUserName, []byte("n")),
@@ -985,7 +1012,10 @@ func c07Accounts(c *Case) {
 		case 0, 1:
 			return []byte(r.Pick2("bob", "carol", "dave", "new user"))
 		case 2:
-			return []byte(r.Pick2("../x", "../victim", "../../x", "../Users", "..", ".", "", "/", "../Files/a.txt", "../x.yaml", "a/../../x", "/etc/x", "../.", "../Users.yaml"))
+			return []byte(r.Pick2("../x", "../victim", "../../x", "../Users", "..", ".", "", "/", "../Files/a.txt", "../x.yaml", "a/../../x", "/etc/x", "../.", "../Users.yaml",
+				"../config", "a/../../b", "../../config", "../Files/c", "x/../../victim"))
+		case 3, 4:
+			return []byte(r.Pick2("../config", "../../x", "a/../../b", "..", "../victim", "../x"))
 		default:
 			return box.hostile(r)
 		}
@@ -993,7 +1023,41 @@ func c07Accounts(c *Case) {
 	exists := func(p string) bool { _, err := os.Lstat(p); return err == nil }
 	var trace []string
 	acc := cc.Account.Access // what the YAML loader kept of the all-ones bitmap: a new account may not exceed it
-	for i := 0; i < 14; i++ {
+	// logins that were created (or renamed to) successfully, with the file the model says holds them: later requests
+	// delete / rename THE SAME login, so that a path builder that trusts "the account exists" is exercised
+	type knownAcct struct {
+		login   []byte
+		file    string
+		created bool // stored by Create (the builder Delete uses too); a renamed account is stored by Update's builder
+	}
+	var known []knownAcct
+	pickKnown := func() ([]byte, bool) {
+		if len(known) > 0 && r.Chance(60) {
+			return known[r.Intn(len(known))].login, true
+		}
+		return nil, false
+	}
+	// plant plants canary files where the login would land if it were joined to the accounts directory WITHOUT being
+	// anchored below "/" (e.g. ../config -> <cfg>/config.yaml): they must stay untouched.
+	plant := func(l []byte) {
+		for _, p := range []string{filepath.Join(ts.Users, string(l)+".yaml"), filepath.Join(ts.Users, string(l)) + ".yaml",
+			filepath.Join(ts.Users, string(l)+".yaml") + ".tmp"} {
+			if !osAccepts(p) || !strings.HasPrefix(p, ts.Dir+"/") || strings.HasPrefix(p, ts.Users+"/") || p == ts.Users {
+				continue
+			}
+			if _, err := os.Lstat(p); err == nil {
+				continue
+			}
+			if fi, err := os.Stat(filepath.Dir(p)); err != nil || !fi.IsDir() {
+				continue
+			}
+			if os.WriteFile(p, []byte(box.marker+" unanchored account path"), 0644) == nil {
+				c.Dist("acct/canary-planted")
+			}
+		}
+		before = box.outside(ts.Users)
+	}
+	for i := 0; i < 20; i++ {
 		var what string
 		var t hotline.Transaction
 		var created, renamedTo []byte
@@ -1007,6 +1071,9 @@ func c07Accounts(c *Case) {
 				fld(hotline.FieldUserPassword, []byte("pw")), fld(hotline.FieldUserAccess, acc[:]))
 		case k < 5:
 			l := login()
+			if kl, ok := pickKnown(); ok {
+				l = kl
+			}
 			if string(l) == "admin" {
 				l = []byte("bob")
 			}
@@ -1016,6 +1083,9 @@ func c07Accounts(c *Case) {
 			old := []byte(r.Pick2("bob", "carol", "dave", "new user"))
 			if r.Chance(25) {
 				old = login()
+			}
+			if kl, ok := pickKnown(); ok {
+				old = kl
 			}
 			if string(old) == "admin" {
 				old = []byte("bob")
@@ -1035,11 +1105,24 @@ func c07Accounts(c *Case) {
 				fld(hotline.FieldUserPassword, []byte("pw")), fld(hotline.FieldUserAccess, acc[:]))))
 		default:
 			l := login()
+			if kl, ok := pickKnown(); ok {
+				l = kl
+			}
 			if string(l) == "admin" {
 				l = []byte("bob")
 			}
 			what = "update-delete " + hx(l)
 			t = mkTran(hotline.TranUpdateUser, uint32(i+1), fld(hotline.FieldData, subFields(fld(hotline.FieldData, obf(l)))))
+		}
+		if created != nil {
+			plant(created)
+		}
+		if renamedTo != nil {
+			plant(renamedTo)
+		}
+		var deleted []byte
+		if strings.HasPrefix(what, "deleteuser ") || strings.HasPrefix(what, "update-delete ") {
+			deleted = unhx(strings.Fields(what)[1])
 		}
 		createdExisted := created != nil && ts.Acct.Get(string(created)) != nil
 		hadOld := false
@@ -1084,6 +1167,28 @@ func c07Accounts(c *Case) {
 					c.Note("history", trace)
 				}
 				c.Corr("account-file-location", fmt.Sprint(exists(p)), "true", false)
+				if exists(p) && !createdExisted {
+					known = append(known, knownAcct{created, p, true})
+				}
+			}
+		}
+		if deleted != nil && reply == "ok" {
+			for k := range known {
+				if bytes.Equal(known[k].login, deleted) {
+					// the account's own file (inside Users/) is the one that goes away
+					if !known[k].created {
+						known = append(known[:k], known[k+1:]...)
+						break
+					}
+					if exists(known[k].file) {
+						c.Note("request", what)
+						c.Note("account_file", known[k].file)
+						c.Note("history", trace)
+					}
+					c.Corr("account-file-removed", fmt.Sprint(exists(known[k].file)), "false", false)
+					known = append(known[:k], known[k+1:]...)
+					break
+				}
 			}
 		}
 		if renamedTo != nil && reply == "ok" && hadOld && osAccepts(string(renamedTo)+".yaml") {
@@ -1095,6 +1200,15 @@ func c07Accounts(c *Case) {
 					c.Note("model_path", p)
 				}
 				c.Corr("account-file-location", fmt.Sprint(exists(p)), "true", false)
+				for k := range known {
+					if bytes.Equal(known[k].login, renamedFrom) {
+						known = append(known[:k], known[k+1:]...)
+						break
+					}
+				}
+				if exists(p) {
+					known = append(known, knownAcct{renamedTo, p, false})
+				}
 			}
 		}
 	}
